@@ -3,4 +3,15 @@ package main
 // registerMore adds the property table entries beyond C01-C05.
 func registerMore(m map[string]propSpec) {
 	m["C13"] = propSpec{Level: "model_checking", Engines: []engine{{Harness: "gen", Overlay: "base", Shards: -1}}}
+	// C01 additionally runs the concurrent-callers scenarios
+	c01 := m["C01"]
+	c01.Engines = append(c01.Engines, engine{Harness: "adapt", Overlay: "base", Name: "sched", Shards: 8})
+	m["C01"] = c01
+	m["C10"] = propSpec{Level: "model_checking", Engines: []engine{{Harness: "mux", Overlay: "mux", Name: "mux", Shards: -1, MemMB: 4096}}}
+	m["C11"] = propSpec{Level: "model_checking", Engines: []engine{{Harness: "mux", Overlay: "mux", Name: "mux", Shards: -1, MemMB: 4096}}}
+	m["C06"] = propSpec{Level: "model_checking", Engines: []engine{
+		{Harness: "adapt", Overlay: "base", Name: "masks"},
+		{Harness: "adapt", Overlay: "base", Name: "order"},
+		{Harness: "adapt", Overlay: "base", Name: "sched", Shards: 8},
+	}}
 }
